@@ -205,6 +205,8 @@ class ClientProp(Prop):
         "the wire layout in Wire.tla/Replies.tla is a transcription of the protocol as the pinned commit speaks it, "
         "cross-checked by TLC against the repository's captures and pinned frames (MC_Wire, MC_Replies)",
         "an 'empty reply' is end-of-stream: with real streams read() returns b'' only then, and it persists for the connection",
+        "every reply reaches the client in one piece (one read): a reply split by the network is a hazard outside the statements, "
+        "kept as the negative model MC_ClientChunked",
         "the fake device and reply generators are not trusted: TLC classifies every reply (well-formed or not) itself",
     ]
 
@@ -427,7 +429,10 @@ class C03(ClientProp):
                 {"module": "MC_ClientAbandon", "cfg": "MC_ClientAbandonSilent.cfg", "workers": 2},
                 # the library itself gives up on a slow device: keeping the connection violates C03, hanging up does not
                 {"module": "MC_ClientAbandon", "cfg": "MC_ClientTimeoutKeeps.cfg", "expect_violation": "SessionOfThisLogin", "workers": 2},
-                {"module": "MC_ClientAbandon", "cfg": "MC_ClientTimeoutHangsUp.cfg", "workers": 2}] + MODEL_RUNS[:1] + ctx.pick([], [
+                {"module": "MC_ClientAbandon", "cfg": "MC_ClientTimeoutHangsUp.cfg", "workers": 2},
+                # a reply handed over in two pieces shifts every later exchange (outside the statements; the drivers deliver replies whole)
+                {"module": "MC_ClientChunked", "expect_violation": "SessionOfThisLogin", "workers": 2},
+                {"module": "MC_ClientChunked", "cfg": "MC_ClientChunkedWhole.cfg", "workers": 2}] + MODEL_RUNS[:1] + ctx.pick([], [
                     # two operations per client: too large to exhaust (> 30 min on 16 cores), explored by random walks
                     {"module": "MC_Client", "cfg": "MC_ClientTwoOps.cfg", "simulate": "num=40000", "depth": 40, "timeout": 900, "workers": 8},
                     {"module": "MC_Client", "cfg": "MC_ClientLive.cfg", "timeout": 1200, "workers": 8}])
